@@ -1,7 +1,7 @@
 """C01 - recorded snapshots replay cleanly."""
 import core, suites
 from core import World
-from gen import Gen, mode_line
+from gen import Gen, mode_line, cfg_line
 from suites import gen_history, emit_exec, exp_silent, exp_same_fs, run_suite, gen_nest, emit_nested
 
 LEAN_MODULES = ['GoSnaps.Props.C01', 'GoSnaps.Props.C01World']
@@ -78,6 +78,23 @@ def build_world(g, tag, allow):
     return render(tag, make_spec(g, allow))
 
 
+def big_file_world(g):
+    """one snapshot file of more than 128 KiB holding 150 entries of mixed kinds, recorded and replayed:
+    every buffer window of the scanner (4 KiB, 64 KiB) is crossed by some entry"""
+    from gen import Call
+    calls = []
+    for k in range(150):
+        body = b'\n'.join(b'entry %03d line %03d %s' % (k, j, b'x' * ((k * 7 + j) % 40)) for j in range(12 + k % 17))
+        if k % 3 == 0:
+            calls.append((1, Call('snap', body)))
+        elif k % 3 == 1:
+            calls.append((1, Call('json', ('{"k": %d, "pad": "%s", "list": [%s]}' % (k, 'p' * (200 + k), ', '.join(str(i) for i in range(k % 30)))).encode(), 's')))
+        else:
+            calls.append((1, Call('yaml', ('k: %d\npad: %s\nitems:\n%s' % (k, 'q' * (150 + k), ''.join('  - item%d\n' % i for i in range(5 + k % 20)))).encode(), 's')))
+    spec = dict(cfgs=[cfg_line(1, 'snaps')], execs=[(b'TestBigFile', calls)], flags=set(), recmode='', modes=[(True, ''), (False, 'true')], pre=[], nest={})
+    return render('c01-bigfile', spec)
+
+
 def known(w, p):
     if p['kind'] != 'expect':
         return None
@@ -106,6 +123,7 @@ def run(ctx):
         elif k < 0.36:
             allow = ('long',) if g.r.random() < 0.5 else ('big',)       # a 70 KB / 300 KB line: beyond bufio.MaxScanTokenSize
         worlds.append(build_world(g, 'c01-%d' % i, allow))
+    worlds.append(big_file_world(g))
     run_suite(ctx, 'match.replay', worlds, known=known)
     findings.report(ctx, 'C01')
 
